@@ -19,6 +19,7 @@ template<class PS> static size_t nlevels(const PS &s) { size_t m=0; for (auto &t
 template<class PS, class V> static void run_levels(const PS &s, const NV &rhs, V &x, bool reverse_threads) { int T=s.nthreads; size_t L=nlevels(s);
     for (size_t lev=0; lev<L; ++lev) for (int k=0;k<T;++k) { int t = reverse_threads ? T-1-k : k; if (lev>=s.tasks[t].size()) continue; PS one=s; auto task=s.tasks[t][lev]; one.tasks[t].clear(); one.tasks[t].push_back(task); hx_omp_tid=t; one.sweep(rhs,x); } hx_omp_tid=0; }
 
+static Pattern reversed(const Pattern &p) { Pattern q=p; for (int i=0;i<p.n;++i) std::reverse(q.col.begin()+p.ptr[i], q.col.begin()+p.ptr[i+1]); q.name=p.name+"_unsorted"; return q; }
 template<bool fwd> static void gs_case(const Pattern &p, int T) { hx::run_case(std::string("gauss_seidel/")+(fwd?"fwd":"bwd")+"/T"+std::to_string(T)+"/"+p.name, [&]() {
     SCrs A=hx::symbolic_matrix(p,"a"); for (auto &v : A.val) hx::assume(hx::ne(v,scalar(0))); auto Am=hx::to_amgcl(A); int n=p.n; typedef typename rx::gauss_seidel<BE>::template parallel_sweep<fwd> PS;
     auto S=build_schedule<PS>(*Am,T); std::vector<scalar> f=hx::sym_vector("f",n), x0=hx::sym_vector("x",n,0.25);
@@ -72,6 +73,8 @@ int main(int argc, char **argv) {
     std::vector<Pattern> pats; for (int n=2;n<=3;++n) { uint64_t lim=1ull<<(n*n); for (uint64_t mask=0;mask<lim;++mask) { bool canon=true; for (int i=0;i<n;++i) if ((mask>>(i*n+i))&1) canon=false; if (canon) pats.push_back(hx::mask_pattern(n,n,mask,true)); } }
     for (int k=0;k<(T?200:40);++k) { uint64_t mask=rng.next()&0xffff; for (int i=0;i<4;++i) mask&=~(1ull<<(i*4+i)); pats.push_back(hx::mask_pattern(4,4,mask,true)); } for (int k=0;k<(T?60:12);++k) pats.push_back(hx::random_pattern(5,5,rng,2,true)); pats.push_back(hx::band_pattern(5,1)); pats.push_back(hx::grid_pattern(3,2)); pats.push_back(hx::arrow_pattern(5));
     for (auto &p : pats) for (int Tn : {2,4,5}) { if (Tn==5 && !(T || p.n>=4)) continue; gs_case<true>(p,Tn); gs_case<false>(p,Tn); if (p.n>=3 && (T || Tn==4)) ilu_case(p,Tn); }
+    // rows whose entries are stored in arbitrary (here: reversed) column order -- the smoother may be used standalone on a user matrix
+    for (size_t k=0;k<pats.size();++k) if (pats[k].n>=3 && (T || k%3==0)) { Pattern q=reversed(pats[k]); gs_case<true>(q,4); gs_case<false>(q,4); }
     for (int k=0;k<(T?40:10);++k) { spgemm_case(hx::random_pattern(3,3,rng,2,false),hx::random_pattern(3,3,rng,2,false), 2+rng.below(3)); spgemm_case(hx::random_pattern(4,3,rng,2,false),hx::random_pattern(3,5,rng,2,false), 17+rng.below(3)); }
     return hx::finish();
 }
